@@ -54,14 +54,62 @@ package verifspec
 //@   loop 1 hint exit: unfold escAll(s[$i1:])
 //@   loop 1 decreases len(s) - $i1
 
-// rwseq(s): the result of whitespace removal on the byte sequence s (abstract here; removeWhitespace itself is listed as
-// an assumed contract until its lexer-level contract is discharged).
-//@ pure rwseq(s seq) seq
-//@ extern compiler.removeWhitespace
-//@   param b minify
+// ---- removeWhitespace against a declarative tokenizer.
+// The JavaScript the translator emits is seen as a sequence of tokens: a source-map hint (0x08, two length bytes, payload),
+// a string literal ('"', runs of plain characters separated by two-byte escapes, closed by the first unescaped '"'), a
+// block comment ("/*" up to the first "*/"), a whitespace byte, or any other byte.  rw(b, p) is the minified form of b when
+// the previously emitted byte was p: hints and string literals are copied verbatim, comments vanish, a whitespace byte
+// vanishes unless both neighbours need a separator (identifier characters) or it keeps "- -" apart, everything else is
+// copied.  fqb(b) is the index of the first '"' or '\\' in b and cmt(b) the index of the first "*/" (abstract: they are what
+// bytes.IndexAny / bytes.Index compute; for a comment that is never closed cmt is -1 and three bytes are skipped -- the
+// translator does not emit one, and the contract does not pretend the result means anything then).
+//@ pure ws(c int) bool = c == 32 || c == 9 || c == 10
+//@ pure nsp(c int) bool = (c >= 97 && c <= 122) || (c >= 65 && c <= 90) || (c >= 48 && c <= 57) || c == 95 || c == 36 || c == 8
+//@ pure fqb(b []byte) int
+//@ pure cmt(b []byte) int
+//@ pure strq(b []byte) int = b[fqb(b)] == 34 ? fqb(b) : fqb(b) + 2 + strq(b[fqb(b)+2:])
+//@ pure rw(b []byte, p int) seq = len(b) == 0 ? empty() : (b[0] == 8 ? cat(seq(b[:hlen(b, 0) + 3]), rw(b[hlen(b, 0) + 3:], p)) : ((ws(b[0]) && (!nsp(p) || !nsp(b[1])) && !(p == 45 && b[1] == 45)) ? rw(b[1:], p) : (b[0] == 34 ? cat(seq(b[:strq(b[1:]) + 2]), rw(b[strq(b[1:]) + 2:], 34)) : ((b[0] == 47 && b[1] == 42) ? rw(b[cmt(b[2:]) + 4:], p) : cat(byteseq(b[0]), rw(b[1:], b[0]))))))
+
+//@ extern bytes.IndexAny
+//@   param s chars
+//@   requires chars == "\"\\"
 //@   assigns nothing
-//@   ensures minify ==> seq(result) == rwseq(seq(b))
-//@   ensures !minify ==> seq(result) == seq(b)
+//@   ensures result == -1 || (result == fqb(s) && 0 <= result && result < len(s))
+//@ extern bytes.Index
+//@   param s sep
+//@   requires len(sep) == 2 && sep[0] == 42 && sep[1] == 47
+//@   assigns nothing
+//@   ensures result == cmt(s) && -1 <= result && result + 2 <= len(s)
+
+// rwseq(s) names the same function on sequences (Decl.minify and writeF are stated with it).
+//@ pure rwseq(s seq) seq
+//@ axiom rwdef(b []byte): rwseq(seq(b)) == rw(b, 0)
+
+//@ func compiler.removeWhitespace
+//@ property C16
+//@   panics_only_if true
+//@   ensures !minify ==> seq(result) == seq(b) && len(result) == len(b)
+//@   ensures minify ==> seq(result) == rw(old(b), 0)
+//@   hint return: use rwdef(old(b))
+//@   ensures minify ==> seq(result) == rwseq(seq(old(b)))
+//@   loop 1 invariant previous >= 0 && previous <= 255 && cat(seq(out), rw(b, previous)) == rw(old(b), 0)
+//@   loop 1 hint head: unfold rw(b, previous)
+//@   loop 1 hint head: ghost B = b
+//@   loop 1 hint head: ghost O1 = seq(out)
+//@   loop 1 hint head: ghost P1 = previous
+//@   loop 1 hint exit: unfold rw(b, previous)
+//@   loop 2 hint init: ghost S = b
+//@   loop 2 hint init: ghost O2 = seq(out)
+//@   loop 2 invariant suffixof(b, S) && len(b) <= len(S) && seq(out) == cat(O2, seq(S[:len(S) - len(b)])) && strq(S) == (len(S) - len(b)) + strq(b)
+//@   loop 2 invariant suffixof(S, B) && len(S) == len(B) - 1 && B[0] == 34 && O2 == cat(O1, byteseq(34)) && previous == P1 && cat(O1, rw(B, P1)) == rw(old(b), 0)
+//@   loop 2 hint head: unfold strq(b)
+//@   loop 2 hint head: ghost K = len(S) - len(b)
+//@   loop 2 hint head: ghost F = fqb(b)
+//@   loop 2 hint step: split(S, 0, K, K + F)
+//@   loop 2 hint step: split(S, 0, K + F, K + F + 2)
+//@   loop 1 hint step: split(B, 0, 1, K + F + 2)
+//@   loop 1 hint step: split(B, 1, 1 + K, K + F + 2)
+//@   loop 1 hint step: split(B, 1 + K, 1 + K + F, K + F + 2)
 
 // Decl.minify: every one of the nine code sections goes through whitespace removal of *its own* content; nothing else changes.
 //@ func compiler.Decl.minify
